@@ -13,7 +13,7 @@ META = {
                  "dominating bound; R03.4 no recursion whose depth is controlled by the input, no VLA with an unbounded bound; "
                  "R03.5 interval check of every signed arithmetic/shift/division reachable from the read entry points; R03.6 "
                  "inet_ntop sources have a checked length; R03.7 every throw is std::exception-derived, no handler on the read "
-                 "path, every tool main wraps its read-API calls in a try with a std::exception/... handler that returns. R03.8: a reference/pointer/iterator into a vector, string or deque is not used after a call that may reallocate or shrink the container. R03.9: a cursor that subscripts the input advances by a step whose interval is >= 1. The read side is everything reachable from the decoder, the reader, the renderers and the five tool mains. R03.11: a pointer / iterator member that refers into a container of the same object (also through accessors of a member object) is re-seated by every member function that can reallocate that container. R03.10: the container FilePreamble::read appends the input's block parameters to is tested for emptiness on every accepting path and is what m_block_parameters holds afterwards (callers take entry 0 outside any handler). R03.3: a min() bound only sanitises an allocation size when the bound is a constant or the size of an existing container - members and parameters may themselves come from the input.",
+                 "path, every tool main wraps its read-API calls in a try with a std::exception/... handler that returns. R03.8: a reference/pointer/iterator into a vector, string or deque is not used after a call that may reallocate or shrink the container. R03.9: a cursor that subscripts the input advances by a step whose interval is >= 1. The read side is everything reachable from the decoder, the reader, the renderers and the five tool mains. R03.11: a pointer / iterator member that refers into a container of the same object (also through accessors of a member object) is re-seated by every member function that can reallocate that container. R03.10: the container FilePreamble::read appends the input's block parameters to is tested for emptiness on every accepting path and is what m_block_parameters holds afterwards (callers take entry 0 outside any handler). R03.3: a min() bound only sanitises an allocation size when the bound is a constant or the size of an existing container - members and parameters may themselves come from the input. R03.2 bounds a built-in array subscript by the interval of the index expression against the array extent.",
     "explanation": "Clause-by-clause static rules over the functions reachable from the read entry points (resolved call graph). "
                    "Full memory safety of C++ is not decided: use-after-free in general, uninitialised reads and libstdc++/boost "
                    "internals are outside reach (C19 covers the one ownership hazard the code has).",
